@@ -41,7 +41,13 @@ def parse(
     text = evaluate_ifdefs(text, keep_lines=True)
     lexer = Lexer(text, path=path)
     parser = Parser(lexer, settings)
-    program = parser.parse()
+    try:
+        program = parser.parse()
+    except RecursionError:
+        # Each #include is parsed recursively: a very long chain of files that include
+        # one another (without forming a cycle) exhausts the Python stack.
+        parser.messages.err("#include statements are nested too deeply")
+        program = []
     return (program, parser.messages)
 
 
